@@ -470,7 +470,7 @@ func vC14KsCase(t *testing.T, c *vh.Case, sc vC14KsScn) {
 
 func TestVerif_C14_keystore(t *testing.T) {
 	vh.Run(t, vh.Spec{Prop: "C14", Unit: "keystore", Quick: 60, Thorough: 2500, CostMs: 40,
-		Rule: "PRNG plain keystore over the journaling datastore (every access 0.2-3 ms of virtual time, batch size 2-16, a first bulk Put of 0-12 keys) with 1-4 clients issuing 2-7 Put/Delete/Get/Size/ContainsPrefix/CountKeysUpTo/Empty; reference run counts boundary events, re-runs Close immediately after construction (worker still in loadSize), at 2 events on the worker's stack and 2 PRNG indices (thorough: all, <= 80); non-trivial = Close while the worker was inside an operation",
+		Rule:    "PRNG plain keystore over the journaling datastore (every access 0.2-3 ms of virtual time, batch size 2-16, a first bulk Put of 0-12 keys) with 1-4 clients issuing 2-7 Put/Delete/Get/Size/ContainsPrefix/CountKeysUpTo/Empty; reference run counts boundary events, re-runs Close immediately after construction (worker still in loadSize), at 2 events on the worker's stack and 2 PRNG indices (thorough: all, <= 80); non-trivial = Close while the worker was inside an operation",
 		Clauses: []string{"baseline-clean", "close-returns-in-bound", "no-goroutine-after-close", "close-again-returns", "op-no-panic", "late-call-errclosed", "no-goroutine-after-2min", "datastore-fenced"}},
 		func(c *vh.Case) {
 			r := c.R
@@ -481,7 +481,7 @@ func TestVerif_C14_keystore(t *testing.T) {
 
 func TestVerif_C14_resettable(t *testing.T) {
 	vh.Run(t, vh.Spec{Prop: "C14", Unit: "resettable", Quick: 80, Thorough: 3000, CostMs: 60,
-		Rule: "PRNG ResettableKeystore (shared-slot or factory mode, reset buffer capacity 1-64, batch size 2-16) with 1-3 clients and, in 80% of the cases, one ResetCids of 5-60 CIDs fed at 0-4 ms per CID (its own context cancelled at a PRNG instant in 20%); accesses on the ResetCids goroutine take 3x longer (slow alternate store); Close instants enumerated as for the plain store plus 2 events on ResetCids' stack, i.e. in every reset phase (prepare, bulk, refresh, catch-up, cleanup/swap, teardown) and with the worker back-pressured on a full buffer; non-trivial = Close on an event of the worker's or ResetCids' stack",
+		Rule:    "PRNG ResettableKeystore (shared-slot or factory mode, reset buffer capacity 1-64, batch size 2-16) with 1-3 clients and, in 80% of the cases, one ResetCids of 5-60 CIDs fed at 0-4 ms per CID (its own context cancelled at a PRNG instant in 20%); accesses on the ResetCids goroutine take 3x longer (slow alternate store); Close instants enumerated as for the plain store plus 2 events on ResetCids' stack, i.e. in every reset phase (prepare, bulk, refresh, catch-up, cleanup/swap, teardown) and with the worker back-pressured on a full buffer; non-trivial = Close on an event of the worker's or ResetCids' stack",
 		Clauses: []string{"baseline-clean", "close-returns-in-bound", "no-goroutine-after-close", "close-again-returns", "op-no-panic", "interrupted-op-returns", "late-call-errclosed", "no-goroutine-after-2min", "datastore-fenced"}},
 		func(c *vh.Case) {
 			r := c.R
@@ -493,7 +493,7 @@ func TestVerif_C14_resettable(t *testing.T) {
 
 func TestVerif_C14_keystore_ctor(t *testing.T) {
 	vh.Run(t, vh.Spec{Prop: "C14", Unit: "keystore_ctor", Quick: 30, Thorough: 300, CostMs: 3,
-		Rule: "keystore constructors failing at an enumerated point: invalid base option, invalid reset option, active-marker read error, corrupted marker whose correction fails, factory create failure; oracle: error returned, no goroutine of the package left, no datastore access after the constructor returned; all cases non-trivial",
+		Rule:    "keystore constructors failing at an enumerated point: invalid base option, invalid reset option, active-marker read error, corrupted marker whose correction fails, factory create failure; oracle: error returned, no goroutine of the package left, no datastore access after the constructor returned; all cases non-trivial",
 		Clauses: []string{"ctor-returns-error", "ctor-fail-no-goroutine"}},
 		func(c *vh.Case) {
 			points := []string{"base-option", "reset-option", "marker-read", "marker-fix", "factory-create", "plain-option"}
